@@ -114,6 +114,16 @@ def run(v):
         if e["ok"]:
             c = e["c"]
             tris.setdefault((st["o"], len(st["d"])), []).append([c[0][0], c[1][0], 1 if c[0][1] + c[1][1] > DQ else 0])
+    # the same index under the six orientations back to back, in varying order (a conversion must not remember
+    # anything from the previous one)
+    orients = ["uv", "vu", "uw", "wu", "vw", "wv"]
+    for st in states:
+        if st["o"] == "uv" and len(st["d"]) <= 4:
+            for rep in range(2):
+                order = orients[:]
+                rng.shuffle(order)
+                for o in order:
+                    events.append(cell_event(st["d"], o, cache))
     n_b1 = len(events)
     for (o, h), lst in sorted(tris.items()):
         events.append({"ev": "level", "o": o, "h": h, "tris": lst})
